@@ -381,12 +381,19 @@ class Engine:
                 self.lenient_skips.append((stmt.lineno, f'assert not evaluated: {u}'))
                 self.stmts_modelled.add(stmt.lineno)
                 return [(st.clone(), (NORMAL,))]
+            if self.c.get('lenient') and isinstance(stmt, ast.Delete) and not any(isinstance(t_, ast.Name) for t_ in stmt.targets):
+                # lenient contract: `del container[key]` mutates an unmodelled container only
+                self.lenient_skips.append((stmt.lineno, f'del of an item of an unmodelled container: {u}'))
+                self.stmts_modelled.add(stmt.lineno)
+                res = [(st.clone(), (NORMAL,))]
+                self._run_ghost_after(st, stmt, res)
+                return res
             if self.c.get('lenient') and isinstance(stmt, (ast.Assign, ast.AugAssign, ast.AnnAssign, ast.Expr)) \
                     and not any(isinstance(n, (ast.Yield, ast.YieldFrom)) for n in ast.walk(stmt)):
                 # lenient contract (stated in the contract): a simple statement outside the modelled subset is over-approximated --
                 # every name it may bind or mutate becomes an unknown value; obligations that depend on such a value cannot be discharged
                 s2 = st.clone()
-                for n in assigned_names([stmt]):
+                for n in self._lenient_havoc_names(stmt, st):
                     if n in self.c.get('lenient_protect', ()):
                         self.unsupported.append((stmt.lineno, f'lenient skip would havoc protected name {n}: {u}'))
                         return []
@@ -465,6 +472,41 @@ class Engine:
             st.env[stmt.name] = VConst(('localdef', stmt))
             return [(st, (NORMAL,))]
         raise Unsupported(f'statement {type(stmt).__name__}')
+
+    def _loop_mods(self, body, st):
+        """names a loop body may change (havocked at the cut)"""
+        out = set()
+        for s_ in body:
+            out |= self._lenient_havoc_names(s_, st)
+        return out
+
+    def _lenient_havoc_names(self, stmt, st):
+        """names a statement (tree) may change.  A store into / mutating call on `x.attr...` where x is a record and `attr` is not one of its
+        modelled fields changes nothing the model can see: x is kept, provided NO store or mutation under x touches a modelled field or x itself."""
+        unmodelled, modelled = set(), set()
+        for n in ast.walk(stmt):
+            tgt = None
+            if isinstance(n, (ast.Attribute, ast.Subscript)) and isinstance(n.ctx, (ast.Store, ast.Del)):
+                tgt = n
+            elif isinstance(n, ast.Call) and isinstance(n.func, ast.Attribute) and n.func.attr in _MUTATORS:
+                tgt = n.func.value
+            if tgt is None:
+                continue
+            chain, first_attr = tgt, None
+            while isinstance(chain, (ast.Attribute, ast.Subscript)):
+                if isinstance(chain, ast.Attribute):
+                    first_attr = chain.attr
+                chain = chain.value
+            if not isinstance(chain, ast.Name):
+                continue
+            v = st.env.get(chain.id)
+            if isinstance(v, VRec) and first_attr is not None and first_attr not in v.fields:
+                unmodelled.add(chain.id)
+            else:
+                modelled.add(chain.id)
+        direct = {n.id for n in ast.walk(stmt) if isinstance(n, ast.Name) and isinstance(n.ctx, (ast.Store, ast.Del))}
+        keep = unmodelled - modelled - direct
+        return {n for n in assigned_names([stmt]) if n not in keep}
 
     def _run_ghost_after(self, st, stmt, res):
         ga = self.c.get('ghost_after')
@@ -577,7 +619,7 @@ class Engine:
     def do_while(self, st, stmt):
         k, spec = self.loop_spec(stmt)
         self.check_inv(st, spec, k, 'init', stmt)
-        mods = assigned_names(stmt.body) | set(spec.get('ghost_mods', []))
+        mods = self._loop_mods(stmt.body, st) | set(spec.get('ghost_mods', []))
         head = st.clone()
         self.havoc(head, spec, mods)
         for e in spec.get('invariant', []):
@@ -639,7 +681,7 @@ class Engine:
         seq = self.as_sequence(it, st)          # (length z3 Int, getter(idx)->V)
         ivar = spec.get('index', f'_i{k}')
         iter_roots = {n.id for n in ast.walk(stmt.iter) if isinstance(n, ast.Name)}
-        mods = assigned_names(stmt.body) | set(spec.get('ghost_mods', []))
+        mods = self._loop_mods(stmt.body, st) | set(spec.get('ghost_mods', []))
         if mods & iter_roots and not spec.get('iter_mutation_ok'):
             raise Unsupported(f'loop #{k}: iterable may be mutated in the body ({sorted(mods & iter_roots)})')
         st.env[ivar] = VInt(0)
